@@ -107,6 +107,28 @@ func RunC08(c *Ctx) {
 			idx++
 		}
 	}
+	// the same windows when a long time has passed since the files were written: every
+	// lock, list and table looks decades old to the code (virtual clock at 2100) - a lock
+	// stays its creator's however long it has been held
+	e.clockAhead = lateClock
+	for i, pc := range cases {
+		if len(pc.rec) != 3 || (!c.Thorough() && i%3 != 0) {
+			continue
+		}
+		if c.Mine(idx) {
+			e.sweepPair("late-clock pair-sweep", idx, engCfg(pc.cfg), pc.rec, pc.a, pc.b, pc.c, pc.preOpen, false)
+		}
+		idx++
+	}
+	for ti, t := range triples[:3] {
+		if c.Mine(idx) {
+			e.sweepTriple("late-clock triple-sweep", idx, engCfg(ti), trecs[0], t[0], t[1], t[2], step+1, step+1)
+		}
+		idx++
+	}
+	e.clockAhead = 0
+	// compactions of explicitly chosen overlapping / nested / disjoint ranges (table locks)
+	idx = e.explicitRanges(idx, false)
 	// I/O errors on lock files inside another process's lock windows
 	idx = e.faultPauseFamilies(idx)
 	// crash of a lock holder followed by other writers
@@ -128,6 +150,9 @@ func RunC08(c *Ctx) {
 	}
 	sampleEng(c, e)
 }
+
+// lateClock: 2020-01-01 (virtual base) + 80 years
+const lateClock = 80 * 365 * 24 * time.Hour
 
 // crashSweep: A=[aDesc] is killed before its k-th filesystem operation, for every k;
 // B=[bDesc] (opened after the crash) continues. With every=true M-dir runs after every op.
